@@ -43,6 +43,10 @@ type accInfo struct {
 	decCall *ssa.Call
 	getCall *ssa.Call
 	codeIdx int // helpers: which parameter is the option code
+	// accessors that go through a presence helper (`ok := d.decodeOption(K, &m)`): the call and the decode target
+	pres   *ssa.Call
+	target ssa.Value
+	decIdx int
 }
 
 // decodeTypeOf: what decodes the raw value v inside f
@@ -122,6 +126,18 @@ func c17AccessorsSel(c *Ctx, only map[string]bool) {
 			}
 		}
 	}
+	// presence helpers: h(code, dec) bool — looks up the option whose code is a parameter, returns false when it is absent,
+	// else decodes it into the decoder it was handed (an interface parameter) and returns "no error"
+	presence := map[*ssa.Function]*accInfo{}
+	for _, f := range c.P.ModuleFuncs() {
+		if pkgPathOf(f) != v4pkg || f.Parent() != nil || (helpers[f] != nil && helpers[f].typ != "") {
+			continue
+		}
+		if h := c17PresenceHelper(c, f, getCalls(f)); h != nil {
+			presence[f] = h
+			delete(helpers, f)
+		}
+	}
 	// accessors: exported methods of *DHCPv4 reading one constant code
 	for _, f := range c.P.ModuleFuncs() {
 		if pkgPathOf(f) != v4pkg || f.Parent() != nil || recvNamed(f) == nil || recvNamed(f).Obj().Name() != "DHCPv4" {
@@ -145,6 +161,13 @@ func c17AccessorsSel(c *Ctx, only map[string]bool) {
 						info = &accInfo{fn: f, code: k, typ: h.typ, decCall: h.decCall, getCall: h.getCall}
 					}
 				}
+				if h, ok := presence[cl.Call.StaticCallee()]; ok && info == nil && h.codeIdx < len(cl.Call.Args) && h.decIdx < len(cl.Call.Args) {
+					if k, ok := optCodeConst(cl.Call.Args[h.codeIdx]); ok {
+						if mi, isMI := cl.Call.Args[h.decIdx].(*ssa.MakeInterface); isMI {
+							info = &accInfo{fn: f, code: k, typ: typeTag(mi.X.Type()), getCall: h.getCall, pres: cl, target: mi.X}
+						}
+					}
+				}
 			})
 		}
 		if info != nil && info.typ != "" {
@@ -157,7 +180,11 @@ func c17AccessorsSel(c *Ctx, only map[string]bool) {
 		for _, a := range accs {
 			if only[a.fn.Name()] {
 				n++
-				c17Fallback(c, a)
+				if a.pres != nil {
+					c17PresenceFallback(c, a)
+				} else {
+					c17Fallback(c, a)
+				}
 				c17Provenance(c, a, helpers)
 			}
 		}
@@ -276,9 +303,14 @@ func c17AccessorsSel(c *Ctx, only map[string]bool) {
 				r.Violation("C17-K1", fmt.Sprintf("%s (code %d) and the printer table use the same value type", name, a.code), c.P.pos(a.fn.Pos()), "accessor decodes as "+a.typ+", Summary prints as "+pt)
 			}
 		}
-		c17Fallback(c, a)
+		if a.pres != nil {
+			c17PresenceFallback(c, a)
+		} else {
+			c17Fallback(c, a)
+		}
 		c17StringTransform(c, a)
 		c17Provenance(c, a, helpers)
+		c17KeepsDecoded(c, "C17-K12", a)
 	}
 	// the shared string helper itself returns the raw bytes as a string (no trimming for everybody)
 	for _, h := range helpers {
@@ -793,4 +825,279 @@ func c17Ctors(c *Ctx) {
 	}
 	r.Count("C17-K9-constructors", n)
 	r.Expect("C17-K9-constructors", 30)
+}
+
+// c17KeepsDecoded: K12 — between the decode and its return an accessor does not rewrite the value it decoded: no store
+// through an address rooted at the decode target (its fields, their elements), no copy into it, and no module callee
+// that writes memory reachable from it (E3 mutation summary). A value-dependent edit of the decoded result
+// (dropping empty names, clamping, sorting) makes the accessor disagree with the raw option bytes.
+func c17KeepsDecoded(c *Ctx, rule string, a *accInfo) {
+	r := c.R
+	if a.decCall == nil {
+		return
+	}
+	f := a.decCall.Parent()
+	name := shortName(a.fn)
+	if f != a.fn {
+		name += " (through " + shortName(f) + ")"
+	}
+	var roots []ssa.Value
+	if sf := a.decCall.Call.StaticCallee(); sf != nil && sf.Signature.Recv() != nil {
+		roots = append(roots, a.decCall.Call.Args[0])
+	} else {
+		for _, ref := range *a.decCall.Referrers() {
+			if ex, ok := ref.(*ssa.Extract); ok && ex.Index == 0 {
+				roots = append(roots, ex)
+			}
+		}
+		if a.decCall.Type() != nil {
+			if _, isTuple := a.decCall.Type().(*types.Tuple); !isTuple {
+				roots = append(roots, a.decCall)
+			}
+		}
+	}
+	isRoot := map[ssa.Value]bool{}
+	for _, v := range roots {
+		isRoot[v] = true
+	}
+	var rooted func(v ssa.Value, d int) bool
+	rooted = func(v ssa.Value, d int) bool {
+		if v == nil || d > 10 {
+			return false
+		}
+		if isRoot[v] {
+			return true
+		}
+		switch x := v.(type) {
+		case *ssa.FieldAddr:
+			return rooted(x.X, d+1)
+		case *ssa.IndexAddr:
+			return rooted(x.X, d+1)
+		case *ssa.UnOp:
+			return rooted(x.X, d+1)
+		case *ssa.Slice:
+			return rooted(x.X, d+1)
+		case *ssa.ChangeType:
+			return rooted(x.X, d+1)
+		case *ssa.Phi:
+			for _, e := range x.Edges {
+				if _, isPhi := e.(*ssa.Phi); !isPhi && rooted(e, d+1) {
+					return true
+				}
+			}
+		}
+		return false
+	}
+	after := reachFromSuccs(a.decCall.Block(), nil, nil)
+	bad, pos := "", ""
+	e := getE3(c)
+	for _, b := range f.Blocks {
+		for i, in := range b.Instrs {
+			// only what follows the decode call
+			follows := after[b]
+			if b == a.decCall.Block() {
+				follows = follows || indexOfInstr(b, a.decCall) < i
+			}
+			if !follows {
+				continue
+			}
+			switch x := in.(type) {
+			case *ssa.Store:
+				if rooted(x.Addr, 0) {
+					bad, pos = "a store to "+c.Sx().Of(x.Addr).String(), c.P.ipos(x)
+				}
+			case *ssa.Call:
+				if x == a.decCall {
+					continue
+				}
+				if bi, ok := x.Call.Value.(*ssa.Builtin); ok {
+					if bi.Name() == "copy" && rooted(x.Call.Args[0], 0) {
+						bad, pos = "a copy into the decoded value", c.P.ipos(x)
+					}
+					continue
+				}
+				sf := x.Call.StaticCallee()
+				if sf == nil || !inModule(sf) || sf.Blocks == nil {
+					continue
+				}
+				ps := map[int]bool{}
+				for j, arg := range x.Call.Args {
+					if rooted(arg, 0) {
+						if _, isPtrLike := arg.Type().Underlying().(*types.Basic); !isPtrLike {
+							ps[j] = true
+						}
+					}
+				}
+				if len(ps) == 0 {
+					continue
+				}
+				for _, fd := range e.mutationFindings(sf, ps) {
+					if !strings.HasPrefix(fd.short, "UNDECIDED") {
+						bad, pos = shortName(sf)+" writes "+fd.short, c.P.ipos(x)
+						break
+					}
+				}
+			}
+		}
+	}
+	if bad == "" {
+		r.OK(rule, name+": the decoded value is returned as decoded", c.P.pos(a.fn.Pos()), "no store, copy or writing callee rooted at the decode target after the decode", "")
+		return
+	}
+	r.Violation(rule, name+": the decoded value is returned as decoded", pos, "after decoding, the accessor rewrites the value it decoded ("+bad+"): what it returns is no longer what the option's bytes say")
+}
+
+func indexOfInstr(b *ssa.BasicBlock, in ssa.Instruction) int {
+	for i, x := range b.Instrs {
+		if x == in {
+			return i
+		}
+	}
+	return -1
+}
+
+// c17PresenceHelper: f is `func (…) h(code, dec) bool { v := Options.Get(code); if v == nil { return false }; return dec.FromBytes(v) == nil }`
+// in any spelling: one lookup by a parameter code, the absent edge returns the constant false, exactly one FromBytes
+// invoked on an interface parameter with the looked-up bytes, and every other return yields `err == nil` of that call.
+func c17PresenceHelper(c *Ctx, f *ssa.Function, gets []*ssa.Call) *accInfo {
+	if len(gets) != 1 || f.Blocks == nil || f.Signature.Results().Len() != 1 {
+		return nil
+	}
+	if bt, ok := f.Signature.Results().At(0).Type().Underlying().(*types.Basic); !ok || bt.Kind() != types.Bool {
+		return nil
+	}
+	get := gets[0]
+	codeIdx, decIdx := -1, -1
+	if prm, ok := get.Call.Args[1].(*ssa.Parameter); ok {
+		for i, p := range f.Params {
+			if p == prm {
+				codeIdx = i
+			}
+		}
+	}
+	if codeIdx < 0 {
+		return nil
+	}
+	var dec *ssa.Call
+	nCalls := 0
+	allInstrs(f, func(in ssa.Instruction) {
+		cl, ok := in.(*ssa.Call)
+		if !ok || cl == get {
+			return
+		}
+		if _, isB := cl.Call.Value.(*ssa.Builtin); isB {
+			return
+		}
+		nCalls++
+		if cl.Call.IsInvoke() && cl.Call.Method.Name() == "FromBytes" && len(cl.Call.Args) == 1 && cl.Call.Args[0] == ssa.Value(get) {
+			if prm, ok := cl.Call.Value.(*ssa.Parameter); ok {
+				for i, p := range f.Params {
+					if p == prm {
+						decIdx = i
+						dec = cl
+					}
+				}
+			}
+		}
+	})
+	if dec == nil || nCalls != 1 {
+		return nil
+	}
+	// no other effects
+	pure := true
+	allInstrs(f, func(in ssa.Instruction) {
+		switch in.(type) {
+		case *ssa.Store, *ssa.MapUpdate, *ssa.Send, *ssa.Go, *ssa.Defer:
+			pure = false
+		}
+	})
+	if !pure {
+		return nil
+	}
+	// returns: false on the absent edge; err == nil otherwise
+	var okRet func(v ssa.Value, d int) bool
+	okRet = func(v ssa.Value, d int) bool {
+		if d > 4 {
+			return false
+		}
+		switch t := v.(type) {
+		case *ssa.Const:
+			return t.Value != nil && t.Value.String() == "false"
+		case *ssa.BinOp:
+			return t.Op == token.EQL && ((t.X == ssa.Value(dec) && isNilConst(t.Y)) || (t.Y == ssa.Value(dec) && isNilConst(t.X)))
+		case *ssa.Phi:
+			for _, e := range t.Edges {
+				if !okRet(e, d+1) {
+					return false
+				}
+			}
+			return true
+		}
+		return false
+	}
+	for _, ret := range returnsOf(f) {
+		if !okRet(ret.Results[0], 0) {
+			return nil
+		}
+	}
+	// the decode is reached only with a non-nil lookup result
+	guarded := false
+	for _, b := range f.Blocks {
+		if iff := ifOf(b); iff != nil {
+			if nilE, _, ok := nilEdgesOf(iff, func(v ssa.Value) bool { return v == ssa.Value(get) }); ok {
+				if !reachFromSuccs(nilE.To, nil, nil)[dec.Block()] && nilE.To != dec.Block() {
+					guarded = true
+				}
+			}
+		}
+	}
+	if !guarded {
+		return nil
+	}
+	return &accInfo{fn: f, getCall: get, codeIdx: codeIdx, decIdx: decIdx}
+}
+
+// c17PresenceFallback: K2 / K11 for an accessor of the form `if !h(K, &m) { return default }; return m`: on the false
+// outcome of the presence helper the accessor returns nothing derived from the decode target; every return reachable
+// without that outcome derives from it.
+func c17PresenceFallback(c *Ctx, a *accInfo) {
+	r, sx := c.R, c.Sx()
+	f := a.fn
+	name := shortName(f)
+	var falseE []Edge
+	for _, b := range f.Blocks {
+		iff := ifOf(b)
+		if iff == nil {
+			continue
+		}
+		inner, same := unwrapBool(iff.Cond)
+		if inner != ssa.Value(a.pres) {
+			continue
+		}
+		if same {
+			falseE = append(falseE, Edge{b, b.Succs[1]})
+		} else {
+			falseE = append(falseE, Edge{b, b.Succs[0]})
+		}
+	}
+	if len(falseE) == 0 {
+		r.Violation("C17-K2", name+": the presence result of "+shortName(a.pres.Call.StaticCallee())+" is tested", c.P.ipos(a.pres), "the accessor does not branch on whether the option was present and well-formed: a default-initialised or partially decoded value is returned as decoded")
+		return
+	}
+	for _, ret := range returnsOf(f) {
+		if len(ret.Results) == 0 {
+			continue
+		}
+		onFalse := mustPassEdges(f, ret.Block(), falseE...)
+		derived := !fallbackValueOK(ret.Results[0], a.target)
+		switch {
+		case onFalse:
+			r.Check(!derived, "C17-K2", name+": absent or malformed option yields the documented default", c.P.ipos(ret), "value returned on the not-present outcome does not derive from the decode target", "returns "+sx.Of(ret.Results[0]).String())
+		case derived:
+			r.OK("C17-K11", name+": a present, well-formed value is reported (not the default)", c.P.ipos(ret), "success-path return derives from the decode target", "")
+		default:
+			r.Violation("C17-K11", name+": a present, well-formed value is reported (not the default)", c.P.ipos(ret),
+				"this return is reachable although the option is present and decoded without error, and what it yields ("+sx.Of(ret.Results[0]).String()+") does not derive from the decoded value")
+		}
+	}
 }
